@@ -1,408 +1,5 @@
-// C19 harness: text, path and command-line utilities of igris against the
-// Lean model (IgrisModel/C19).
-//
-//   igris/util/string.{h,cpp}      split(char), split(delims), split_cmdargs, join, join<Iter>, trim
-//   igris/string/replace.cpp       igris::replace
-//   igris/string/replace_substrings.c, igris/string/memmem.c
-//   igris/datastruct/argvc.h       argvc_internal_split, argvc_internal_split_n
-//   igris/shell/mshell.c, rshell.c the four dispatchers
-//   igris/util/pathops.h           path_next, path_iterate, path_compare_node, path_remove_prefix
-//   igris/creader.h                creader_readline, creader_skip, creader_skipws
-//   extension (round 3, see run_op2/gen2): path_is_abs/is_simple/is_double_dot/last_node, path_next(path,NULL),
-//   argvc_length_of_first, igris::buffer ==/!= and constructors, dstring (string.cpp via C19_dstr.cpp, util/dstring.h,
-//   util/dstring.c), mshell/rshell help routines, rshell_execute_v with the caller's argv
-//
-// Every buffer handed to the code is an exactly sized heap allocation (also
-// the empty one: a pointer one past a 1-byte block), C strings are text+NUL in
-// exactly strlen+1 bytes, so ASan reports any access outside the extent.
-// The oracles are independent std::string based references.
-#include "common/hv.h"
-#include <algorithm>
-#include <cerrno>
-#include <functional>
-#include <set>
-
-#include <igris/util/string.h>
-#include <igris/util/pathops.h>
-#include <igris/creader.h>
-#include <igris/util/dstring.h>
-extern "C"
-{
-#include <igris/shell/mshell.h>
-#include <igris/shell/rshell.h>
-}
-
-using namespace hv;
-typedef std::string str;
-typedef std::vector<std::string> toks;
-std::string c19_dstring_cpp(const void *data, size_t size);
-std::string c19_dstring_cpp_str(const std::string &s);
-
-static_assert(sizeof(void *) == 8, "LP64");
-static_assert((char)0x80 < 0, "char is signed");
-
-// ------------------------------------------------------------------ buffers
-// exactly sized heap copy; for n == 0 the pointer is one past a 1-byte block,
-// so that even reading *p is reported (hv::exact_buf would give a valid byte)
-// ---- round 3: long-lived argument buffers at FIXED addresses (op `re`)
-// While g_arena is set, every xbuf / command name of a call is placed into the
-// next slot of one long-lived block instead of a fresh allocation: the k-th
-// buffer of every call of a case has the same address, only the contents (and
-// the size) change between the calls.  The extent stays exact: everything of a
-// slot outside [p, p+n) is poisoned by hand, so ASan reports an access in front
-// of or behind the extent exactly as for a heap block.
-#if defined(__SANITIZE_ADDRESS__)
-#include <sanitizer/asan_interface.h>
-#define C19_POISON(p, n) __asan_poison_memory_region((p), (n))
-#define C19_UNPOISON(p, n) __asan_unpoison_memory_region((p), (n))
-#else
-#define C19_POISON(p, n) ((void)0)
-#define C19_UNPOISON(p, n) ((void)0)
-#endif
-struct arena
-{
-    static const size_t NSLOT = 48, SLOT = 16384, RED = 64;
-    char *block;
-    size_t next = 0;
-    arena()
-    {
-        block = (char *)aligned_alloc(64, NSLOT * SLOT);
-        C19_POISON(block, NSLOT * SLOT);
-    }
-    ~arena()
-    {
-        C19_UNPOISON(block, NSLOT * SLOT);
-        free(block);
-    }
-    void rewind() { next = 0; }
-    // the next slot with exactly n addressable bytes, or 0 when it does not fit
-    char *place(size_t n)
-    {
-        if (next >= NSLOT || n > SLOT - 2 * RED)
-            return 0;
-        char *slot = block + next++ * SLOT;
-        C19_POISON(slot, SLOT);
-        C19_UNPOISON(slot + RED, n);
-        return slot + RED;
-    }
-};
-static arena *g_arena = 0;
-
-struct xbuf
-{
-    char *base;
-    char *p;
-    size_t n;
-    bool own = true;
-    void alloc()
-    {
-        if (g_arena && (p = g_arena->place(n)))
-        {
-            base = 0;
-            own = false;
-            return;
-        }
-        if (n == 0)
-        {
-            base = (char *)malloc(1);
-            p = base + 1;
-        }
-        else
-        {
-            base = (char *)malloc(n);
-            p = base;
-        }
-    }
-    explicit xbuf(const str &s) : n(s.size())
-    {
-        alloc();
-        if (n)
-            memcpy(p, s.data(), n);
-    }
-    xbuf(size_t size, int fill) : n(size)
-    {
-        alloc();
-        if (n)
-            memset(p, fill, n);
-    }
-    ~xbuf()
-    {
-        if (own)
-            free(base);
-    }
-    xbuf(const xbuf &) = delete;
-    str get() const { return str(p, n); }
-    igris::buffer buf() const { return igris::buffer((const void *)p, n); }
-};
-// C string: text + NUL in exactly text.size()+1 bytes
-static str cz(const str &s) { return s + str(1, '\0'); }
-
-static str H(const str &s) { return hex(s); }
-static str U(const std::string &h)
-{
-    auto v = unhex(h);
-    return str(v.begin(), v.end());
-}
-static str fmt_toks(const toks &v)
-{
-    str r = std::to_string(v.size());
-    for (auto &t : v)
-        r += " " + H(t);
-    return r;
-}
-static toks list_arg(const std::string &w) // "61,62" or "-" -> {"a","b"} / {}
-{
-    toks r;
-    if (w == "-")
-        return r;
-    size_t i = 0;
-    while (true)
-    {
-        size_t j = w.find(',', i);
-        r.push_back(U(w.substr(i, j == str::npos ? j : j - i)));
-        if (j == str::npos)
-            break;
-        i = j + 1;
-    }
-    return r;
-}
-static str upto_nul(const str &s) { return s.substr(0, s.find('\0')); }
-
-// ---------------------------------------------------------------- references
-// init_priority: constructed in front of the pre-main runner (round 3) that uses them
-static const str WS_ARGV __attribute__((init_priority(101))) = str(" \r\n\t");
-static const str WS_TRIM __attribute__((init_priority(101))) = str(" \n\r\t");
-
-// maximal runs of characters not in `delims`
-static toks ref_runs(const str &s, const str &delims)
-{
-    toks out;
-    size_t i = 0;
-    while ((i = s.find_first_not_of(delims, i)) != str::npos)
-    {
-        size_t j = s.find_first_of(delims, i);
-        out.push_back(s.substr(i, j == str::npos ? j : j - i));
-        if (j == str::npos)
-            break;
-        i = j;
-    }
-    return out;
-}
-static str ref_join(const toks &v, const str &d)
-{
-    str r;
-    for (size_t i = 0; i < v.size(); i++)
-    {
-        if (i)
-            r += d;
-        r += v[i];
-    }
-    return r;
-}
-static str ref_trim(const str &s)
-{
-    size_t a = s.find_first_not_of(WS_TRIM);
-    if (a == str::npos)
-        return "";
-    size_t b = s.find_last_not_of(WS_TRIM);
-    return s.substr(a, b - a + 1);
-}
-static str ref_replace(const str &s, const str &o, const str &n)
-{
-    if (o.empty())
-        return s;
-    str r;
-    size_t i = 0;
-    while (true)
-    {
-        size_t j = s.find(o, i);
-        if (j == str::npos)
-            break;
-        r += s.substr(i, j - i);
-        r += n;
-        i = j + o.size();
-    }
-    r += s.substr(i);
-    return r;
-}
-static toks ref_cmdargs(const str &s)
-{
-    toks out;
-    size_t i = 0;
-    while ((i = s.find_first_not_of(' ', i)) != str::npos)
-    {
-        if (s[i] == '"' || s[i] == '\'')
-        {
-            size_t j = s.find(s[i], i + 1);
-            if (j == str::npos)
-            {
-                out.push_back(s.substr(i + 1));
-                break;
-            }
-            out.push_back(s.substr(i + 1, j - i - 1));
-            i = j + 1;
-        }
-        else
-        {
-            size_t j = s.find(' ', i);
-            out.push_back(s.substr(i, j == str::npos ? j : j - i));
-            if (j == str::npos)
-                break;
-            i = j;
-        }
-    }
-    return out;
-}
-static toks take(const toks &v, size_t n) { return toks(v.begin(), v.begin() + std::min(n, v.size())); }
-
-// paths, component-wise
-struct comp
-{
-    size_t pos;
-    str s;
-};
-static std::vector<comp> raw_comps(const str &p) // split on '/', always >= 1 piece
-{
-    std::vector<comp> r;
-    size_t i = 0;
-    while (true)
-    {
-        size_t j = p.find('/', i);
-        r.push_back({i, p.substr(i, j == str::npos ? j : j - i)});
-        if (j == str::npos)
-            break;
-        i = j + 1;
-    }
-    return r;
-}
-static bool real(const comp &c) { return !c.s.empty() && c.s != "."; }
-static toks real_comps(const str &p)
-{
-    toks r;
-    for (auto &c : raw_comps(p))
-        if (real(c))
-            r.push_back(c.s);
-    return r;
-}
-// position of the first real component with raw index >= k, or p.size()
-static size_t first_real(const str &p, size_t k, size_t *len = 0)
-{
-    auto cs = raw_comps(p);
-    for (size_t i = k; i < cs.size(); i++)
-        if (real(cs[i]))
-        {
-            if (len)
-                *len = cs[i].s.size();
-            return cs[i].pos;
-        }
-    return p.size();
-}
-// nodes as path_iterate walks them: a leading '/' is a node of its own (""),
-// a relative path starts with its first raw component whatever it is,
-// afterwards only real components
-static std::vector<comp> nodes(const str &p)
-{
-    std::vector<comp> r;
-    if (p.empty())
-        return r;
-    auto cs = raw_comps(p);
-    r.push_back(cs[0]);
-    for (size_t i = 1; i < cs.size(); i++)
-        if (real(cs[i]))
-            r.push_back(cs[i]);
-    return r;
-}
-static int ref_cmp(const str &a, const str &b)
-{
-    str ca = a.substr(0, a.find('/')), cb = b.substr(0, b.find('/'));
-    std::vector<signed char> va(ca.begin(), ca.end()), vb(cb.begin(), cb.end());
-    if (va == vb)
-        return 0;
-    return std::lexicographical_compare(va.begin(), va.end(), vb.begin(), vb.end()) ? -1 : 1;
-}
-
-// ---------------------------------------------------------------- shell glue
-static int g_called, g_argc, g_max;
-static toks g_args __attribute__((init_priority(101)));
-static char *g_out;
-static void rec(int k, int argc, char **argv)
-{
-    g_called = k;
-    g_argc = argc;
-    for (int i = 0; i < argc; i++)
-        g_args.push_back(argv[i]);
-}
-template <int K> static int mh(int argc, char **argv)
-{
-    rec(K, argc, argv);
-    return 100 + K;
-}
-template <int K> static int rh(int argc, char **argv, char *out, int maxsize)
-{
-    rec(K, argc, argv);
-    g_out = out;
-    g_max = maxsize;
-    return 100 + K;
-}
-typedef int (*mfn)(int, char **);
-typedef int (*rfn)(int, char **, char *, int);
-static mfn MH[12] = {mh<0>, mh<1>, mh<2>, mh<3>, mh<4>, mh<5>, mh<6>, mh<7>, mh<8>, mh<9>, mh<10>, mh<11>};
-static rfn RH[12] = {rh<0>, rh<1>, rh<2>, rh<3>, rh<4>, rh<5>, rh<6>, rh<7>, rh<8>, rh<9>, rh<10>, rh<11>};
-
-struct names_keeper
-{
-    std::vector<char *> ptrs;
-    const char *add(const str &s)
-    {
-        char *p = g_arena ? g_arena->place(s.size() + 1) : 0;
-        bool own = !p;
-        if (own)
-            p = (char *)malloc(s.size() + 1);
-        memcpy(p, s.data(), s.size());
-        p[s.size()] = 0;
-        if (own)
-            ptrs.push_back(p);
-        return p;
-    }
-    ~names_keeper()
-    {
-        for (auto p : ptrs)
-            free(p);
-    }
-};
-
-static str fmt_dispatch(int rc, int ret)
-{
-    str r = "rc=" + std::to_string(rc) + " ret=" + std::to_string(ret) + " call=";
-    if (g_called < 0)
-        return r + "none";
-    r += std::to_string(g_called) + "/" + std::to_string(g_argc);
-    for (auto &a : g_args)
-        r += ":" + H(a);
-    return r;
-}
-
-// expected dispatch: tables[t] = names; handler index = 4*t + i; drop[t]
-static str ref_dispatch(const str &text, const std::vector<toks> &tables, const std::vector<int> &drop, int rc_blank)
-{
-    toks tk = take(ref_runs(upto_nul(text), WS_ARGV), 10);
-    if (tk.empty())
-        return "rc=" + std::to_string(rc_blank) + " ret=-777 call=none";
-    for (size_t t = 0; t < tables.size(); t++)
-        for (size_t i = 0; i < tables[t].size(); i++)
-            if (tables[t][i] == tk[0])
-            {
-                int k = (int)(4 * t + i);
-                int argc = (int)tk.size() - drop[t];
-                str r = "rc=0 ret=" + std::to_string(100 + k) + " call=" + std::to_string(k) + "/" + std::to_string(argc);
-                for (size_t a = drop[t]; a < tk.size(); a++)
-                    r += ":" + H(tk[a]);
-                return r;
-            }
-    return "rc=" + std::to_string(ENOENT) + " ret=-777 call=none";
-}
-
-// ---------------------------------------------------------------- run
+// C19 harness, translation unit 1: the ops of the first rounds and main (see C19_common.h)
+#include "C19_common.h"
 static void run_argv(bool bounded, const str &text, int argcmax, out &o, bool judge_term = false)
 {
     // data: bounded -> exactly the bytes; terminated -> text + NUL
@@ -562,504 +159,7 @@ static void run_rsh(bool multi, const std::vector<std::string> &w, out &o)
     if (g_called >= 0 && drop[g_called / 4]) o.tag("sh-dropargs");
 }
 
-
-
-// ================================================================ round 3
-static void run_op(const std::vector<std::string> &w, const std::string &, out &o);
-static uint32_t fnv(const str &s)
-{
-    uint32_t h = 2166136261u;
-    for (unsigned char c : s)
-        h = (h ^ c) * 16777619u;
-    return h;
-}
-static str digest(const str &s) { return std::to_string(s.size()) + " " + hexn(fnv(s), 8); }
-static void add_tags(out &o, const out &sub)
-{
-    size_t i = 0;
-    while (i < sub.tags.size())
-    {
-        size_t j = sub.tags.find(',', i);
-        str t = sub.tags.substr(i, j == str::npos ? j : j - i);
-        if (("," + o.tags + ",").find("," + t + ",") == str::npos)
-            o.tag(t.c_str());
-        if (j == str::npos)
-            break;
-        i = j + 1;
-    }
-}
-
-// ---- calls BEFORE main(): an object with init_priority runs a fixed list of ops from its
-// constructor (the references it needs are constructed with a smaller priority number in
-// front of it) and keeps the result lines; `premain <k> <op>` reports them later.
-static const char *const PREMAIN[] = {
-    "splitc 2061206220 20", "splitd 612c623b63 2c3b", "cmdargs 612022622063222064", "trim 20096120620d0a", "join 2c 61 62 63",
-    "joinf 2c20 5b 5d 61 62", "memmem 6162616263 6263", "replace 6161626161 6161 63", "rsub 5 61626162 62 6363", "argv 206120620963 2",
-    "argvn 6120622063 3", "msh 2062206120 61,62", "msht 6220 61 62", "rsh 6120622063 1 61", "rsht 6220 0:61 1:62",
-    "pnext 2f2e2f612f62", "piter 2f612f2f62", "pcmp 612f 62", "prem 2f612f62 2f61", "creader 610d0a620a63",
-    "cskipws 20090a61", "lenfirst 616220", "pabs 2f61", "psimple 6162", "pdd 2e2e2f", "plast 615c62", "pnext0 2e2f61", "beq 6162 6162",
-    "beqz 6162 6162", "dstr 5c0a80", "mhelp 61:68", "rhelp 9 61:68", "rhelpt 9 61:68", "rshv 0 61 61 62"};
-static const size_t NPREMAIN = sizeof(PREMAIN) / sizeof(PREMAIN[0]);
-struct premain_runner
-{
-    std::vector<out> res;
-    bool ran_before_main = false;
-    premain_runner();
-};
-static bool g_in_main = false;
-premain_runner::premain_runner()
-{
-    ran_before_main = !g_in_main;
-    for (size_t k = 0; k < NPREMAIN; k++)
-    {
-        out o;
-        run_op(words(PREMAIN[k]), PREMAIN[k], o);
-        res.push_back(o);
-    }
-}
-
-static bool run_op3(const std::vector<std::string> &w, out &o);
-
-// ================================================================ extension
-// help tables: "_" = empty table, else entries "name[:help]" (hex or "-")
-struct hentry
-{
-    str name;
-    bool has_help;
-    str help;
-};
-static std::vector<hentry> help_table(const std::string &w)
-{
-    std::vector<hentry> r;
-    if (w == "_")
-        return r;
-    size_t i = 0;
-    while (true)
-    {
-        size_t j = w.find(',', i);
-        std::string e = w.substr(i, j == str::npos ? j : j - i);
-        size_t c = e.find(':');
-        hentry h;
-        h.name = U(e.substr(0, c));
-        h.has_help = c != str::npos;
-        if (h.has_help)
-            h.help = U(e.substr(c + 1));
-        r.push_back(h);
-        if (j == str::npos)
-            break;
-        i = j + 1;
-    }
-    return r;
-}
-static str ref_help(const std::vector<hentry> &t)
-{
-    str r;
-    for (auto &e : t)
-    {
-        r += e.name;
-        if (e.has_help)
-            r += " - " + e.help;
-        r += "\r\n";
-    }
-    return r;
-}
-static toks g_pieces __attribute__((init_priority(101)));
-static void *g_priv;
-static void help_write(void *priv, const char *p, size_t n)
-{
-    g_priv = priv;
-    g_pieces.push_back(str(p, n));
-}
-static int dummy_m(int, char **) { return 0; }
-static int dummy_r(int, char **, char *, int) { return 0; }
-
-// reference decoder of the dstring notation (independent of igris and of the model)
-static bool ref_undstring(const str &e, str &out)
-{
-    out.clear();
-    for (size_t i = 0; i < e.size(); i++)
-    {
-        unsigned char c = (unsigned char)e[i];
-        if (c < 0x20 || c > 0x7e)
-            return false; // the notation is printable ASCII only
-        if (c != '\\')
-        {
-            out.push_back((char)c);
-            continue;
-        }
-        if (i + 1 >= e.size())
-            return false;
-        char k = e[++i];
-        if (k == 'n') out.push_back('\n');
-        else if (k == 't') out.push_back('\t');
-        else if (k == '\\') out.push_back('\\');
-        else if (k == 'x')
-        {
-            if (i + 2 >= e.size())
-                return false;
-            int h = hexval(e[i + 1]), l = hexval(e[i + 2]);
-            if (h < 0 || l < 0)
-                return false;
-            out.push_back((char)(h * 16 + l));
-            i += 2;
-        }
-        else
-            return false;
-    }
-    return true;
-}
-
-template <size_t N> static size_t ctor_size(bool is_const, const str &a)
-{
-    char *m = (char *)malloc(N); // exactly sized
-    memcpy(m, a.data(), N);
-    size_t r = is_const ? igris::buffer(*(const char(*)[N])m).size() : igris::buffer(*(char(*)[N])m).size();
-    free(m);
-    return r;
-}
-
-static bool run_op2(const std::vector<std::string> &w, out &o)
-{
-    const std::string &op = w[0];
-    if (op == "pabs" || op == "psimple" || op == "pdd")
-    {
-        str text = U(w[1]), p = upto_nul(text);
-        xbuf b(cz(text));
-        int r = op == "pabs" ? path_is_abs(b.p) : op == "psimple" ? path_is_simple(b.p) : path_is_double_dot(b.p);
-        o.result = r ? "1" : "0";
-        bool want = op == "pabs" ? (!p.empty() && p[0] == '/') : op == "psimple" ? p.find('/') == str::npos : p.substr(0, p.find('/')) == "..";
-        if ((r != 0) != want)
-            o.fail(op + " " + o.result + " != " + (want ? "1" : "0"));
-        if (r != 0 && r != 1)
-            o.fail(op + " returns something else than 0/1");
-        if (p.empty()) o.tag("path-empty");
-        o.tag(r ? (op + "-yes").c_str() : (op + "-no").c_str());
-        if (op == "pdd" && !p.empty() && p[0] == '.' && !r) o.tag("pdd-dot-but-not-dotdot");
-        return true;
-    }
-    if (op == "plast" || op == "plastu")
-    {
-        // plast: judged by the routine's own separator ('\\');
-        // plastu: judged by the separator of every other helper of pathops.h ('/')
-        str text = U(w[1]), p = upto_nul(text);
-        xbuf b(cz(text));
-        const char *r = path_last_node(b.p);
-        o.result = std::to_string(r - b.p);
-        char sep = op == "plast" ? '\\' : '/';
-        size_t k = p.rfind(sep);
-        size_t want = k == str::npos ? 0 : k + 1;
-        if (r < b.p || r > b.p + p.size())
-            o.fail("path_last_node points outside the path");
-        else if ((size_t)(r - b.p) != want)
-            o.fail("path_last_node " + o.result + " != offset behind the last '" + str(1, sep) + "' " + std::to_string(want));
-        if (p.empty()) o.tag("path-empty");
-        else if (k == str::npos) o.tag("plast-no-separator");
-        else if (k + 1 == p.size()) o.tag("plast-trailing-separator");
-        else if (k == 0) o.tag("plast-separator-first");
-        else o.tag("plast-inner");
-        return true;
-    }
-    if (op == "pnext0")
-    {
-        str text = U(w[1]), p = upto_nul(text);
-        xbuf b(cz(text));
-        const char *r = path_next(b.p, NULL);
-        o.result = r ? std::to_string(r - b.p) : "null";
-        size_t wp = first_real(p, 0);
-        str want = wp == p.size() ? "null" : std::to_string(wp);
-        if (o.result != want)
-            o.fail("path_next(path, NULL) " + o.result + " != first real component " + want);
-        o.tag(r ? "pnext0-found" : "pnext0-null");
-        return true;
-    }
-    if (op == "lenfirst")
-    {
-        str text = U(w[1]), p = upto_nul(text);
-        xbuf b(cz(text));
-        ptrdiff_t r = argvc_length_of_first(b.p);
-        o.result = std::to_string(r);
-        size_t k = p.find(' ');
-        if ((size_t)r != (k == str::npos ? p.size() : k))
-            o.fail("argvc_length_of_first != length of the run in front of the first space");
-        o.tag(k == str::npos ? "lenfirst-to-end" : k == 0 ? "lenfirst-zero" : "lenfirst-word");
-        return true;
-    }
-    if (op == "cskip" || op == "cskipws")
-    {
-        str s = U(w[1]), sy = op == "cskip" ? U(w[2]) : str("\t\n\r ");
-        xbuf b(s), z(cz(sy));
-        struct creader rd;
-        creader_init(&rd, b.p, b.n);
-        int n = op == "cskip" ? creader_skip(&rd, z.p) : creader_skipws(&rd);
-        o.result = std::to_string(n) + " " + std::to_string(creader_curpos(&rd));
-        str set = upto_nul(sy);
-        size_t k = set.empty() ? 0 : s.find_first_not_of(set);
-        if (k == str::npos)
-            k = s.size();
-        if (set.empty())
-            k = 0;
-        if ((size_t)n != k || creader_curpos(&rd) != k)
-            o.fail("creader_skip " + o.result + " != length of the leading run of the symbols " + std::to_string(k));
-        if (rd.cursor != rd.fini && set.find(*rd.cursor) != str::npos)
-            o.fail("creader_skip stops in front of a symbol");
-        if (s.empty()) o.tag("cskip-empty");
-        else if (k == s.size()) o.tag("cskip-to-end");
-        else if (k == 0) o.tag("cskip-nothing");
-        else o.tag("cskip-some");
-        if (set.empty()) o.tag("cskip-no-symbols");
-        if (k < s.size() && s[k] == 0) o.tag("cskip-stops-at-nul");
-        return true;
-    }
-    if (op == "beq")
-    {
-        str a = U(w[1]), b = U(w[2]);
-        xbuf xa(a), xb(b);
-        const igris::buffer ba = xa.buf(), bb = xb.buf();
-        bool eq = ba == bb, ne = ba != bb;
-        o.result = str(eq ? "1" : "0") + " " + (ne ? "1" : "0");
-        if (eq != (a == b))
-            o.fail(str("buffer == is ") + (eq ? "true" : "false") + " for " + (a == b ? "equal" : "different") + " contents");
-        if (ne == eq)
-            o.fail("buffer != is not the negation of ==");
-        if (a.size() != b.size()) o.tag("beq-size-differs");
-        else if (a.empty()) o.tag("beq-both-empty");
-        else if (a == b) o.tag("beq-equal");
-        else if (upto_nul(a) == upto_nul(b) && upto_nul(a).size() < a.size()) o.tag("beq-differ-behind-nul");
-        else o.tag("beq-differ");
-        return true;
-    }
-    if (op == "beqz")
-    {
-        str a = U(w[1]), t = U(w[2]), z = upto_nul(t);
-        xbuf xa(a), xz(cz(t));
-        igris::buffer ba = xa.buf();
-        bool eq = ba == (const char *)xz.p, ne = ba != (const char *)xz.p;
-        o.result = str(eq ? "1" : "0") + " " + (ne ? "1" : "0");
-        if (eq != (a == z))
-            o.fail(str("buffer == const char* is ") + (eq ? "true" : "false") + " for " + (a == z ? "equal" : "different") + " contents");
-        if (ne == eq)
-            o.fail("buffer != const char* is not the negation of ==");
-        if (a == z) o.tag("beqz-equal");
-        else if (z.size() > a.size() && z.compare(0, a.size(), a) == 0) o.tag("beqz-buffer-is-proper-prefix");
-        else if (a.find('\0') != str::npos) o.tag("beqz-nul-in-buffer");
-        else o.tag("beqz-differ");
-        return true;
-    }
-    if (op == "bufctor")
-    {
-        // which constructor takes an array: const char[N] -> buffer(const char*),
-        // char[N] -> the array template (size N).  Correspondence only.
-        bool c = w[1] == "c";
-        str a = U(w[2]);
-        size_t r = 0;
-        switch (a.size())
-        {
-        case 1: r = ctor_size<1>(c, a); break;
-        case 2: r = ctor_size<2>(c, a); break;
-        case 3: r = ctor_size<3>(c, a); break;
-        case 4: r = ctor_size<4>(c, a); break;
-        case 5: r = ctor_size<5>(c, a); break;
-        case 6: r = ctor_size<6>(c, a); break;
-        default: o.result = "bad-op"; return true;
-        }
-        o.result = std::to_string(r);
-        if (igris::buffer("abc").size() != 3)
-            o.fail("buffer(\"abc\").size() != 3");
-        o.tag(c ? "bufctor-const-array" : "bufctor-mutable-array");
-        if (!c && r != upto_nul(a).size()) o.tag("bufctor-counts-behind-text");
-        return true;
-    }
-    if (op == "dstr")
-    {
-        str s = U(w[1]);
-        xbuf b(s);
-        str got = c19_dstring_cpp(b.p, b.n);                 // string.cpp
-        str got_h = igris::dstring((const void *)b.p, b.n);  // util/dstring.h
-        str got_s = c19_dstring_cpp_str(s);
-        str got_b = igris::dstring(b.buf());
-        o.result = H(got);
-        if (got_h != got || got_s != got || got_b != got)
-            o.fail("the dstring overloads of string.cpp and util/dstring.h disagree");
-        // reference size: exactly the bytes bytes_to_dstring may write
-        {
-            xbuf ob(got.size() + 1, 0xA5);
-            int n = bytes_to_dstring(ob.p, b.p, b.n);
-            if (n != (int)got.size() || ob.get() != cz(got))
-                o.fail("bytes_to_dstring disagrees with dstring");
-        }
-        str back;
-        if (!ref_undstring(got, back))
-            o.fail("dstring output " + H(got) + " is not in the notation (printable ASCII, \\n \\t \\\\ \\xHH)");
-        else if (back != s)
-            o.fail("dstring output " + H(got) + " reads back as " + H(back) + ", not as the input (notation ambiguous)");
-        if (s.empty()) o.tag("dstr-empty");
-        if (s.find('\\') != str::npos) o.tag("dstr-backslash");
-        if (s.find('\n') != str::npos || s.find('\t') != str::npos) o.tag("dstr-nl-tab");
-        for (unsigned char c : s)
-            if (c >= 0x80) { o.tag("dstr-high-byte"); break; }
-        for (unsigned char c : s)
-            if (c < 0x20 && c != '\n' && c != '\t') { o.tag("dstr-control"); break; }
-        if (s.find('\x7f') != str::npos) o.tag("dstr-del");
-        return true;
-    }
-    if (op == "mhelp" || op == "mhelpt")
-    {
-        std::vector<std::vector<hentry>> tables;
-        for (size_t i = 1; i < w.size(); i++)
-            tables.push_back(help_table(w[i]));
-        names_keeper nk;
-        std::vector<xbuf *> tb;
-        for (auto &t : tables)
-        {
-            xbuf *x = new xbuf((t.size() + 1) * sizeof(mshell_command), 0);
-            mshell_command *c = (mshell_command *)x->p;
-            for (size_t i = 0; i < t.size(); i++)
-            {
-                c[i].name = nk.add(t[i].name);
-                c[i].func = dummy_m;
-                c[i].help = t[i].has_help ? nk.add(t[i].help) : 0;
-            }
-            tb.push_back(x);
-        }
-        xbuf tp((tables.size() + 1) * sizeof(void *), 0);
-        for (size_t t = 0; t < tables.size(); t++)
-            ((const mshell_command **)tp.p)[t] = (const mshell_command *)tb[t]->p;
-        g_pieces.clear();
-        g_priv = 0;
-        int cookie;
-        if (op == "mhelp")
-            mshell_help((const mshell_command *)tb[0]->p, help_write, &cookie);
-        else
-            mshell_tables_help((const mshell_command *const *)tp.p, help_write, &cookie);
-        o.result = fmt_toks(g_pieces);
-        str all, want;
-        for (auto &p : g_pieces)
-            all += p;
-        for (auto &t : tables)
-            want += ref_help(t);
-        if (all != want)
-            o.fail("help text " + H(all) + " != " + H(want));
-        if (!g_pieces.empty() && g_priv != &cookie)
-            o.fail("privdata not passed to write");
-        for (auto x : tb)
-            delete x;
-        o.tag(want.empty() ? "help-empty" : "help-text");
-        return true;
-    }
-    if (op == "rhelp" || op == "rhelpt")
-    {
-        int ansmax = atoi(w[1].c_str());
-        std::vector<std::vector<hentry>> tables;
-        for (size_t i = 2; i < w.size(); i++)
-            tables.push_back(help_table(w[i]));
-        names_keeper nk;
-        std::vector<xbuf *> tb;
-        for (auto &t : tables)
-        {
-            xbuf *x = new xbuf((t.size() + 1) * sizeof(rshell_command), 0);
-            rshell_command *c = (rshell_command *)x->p;
-            for (size_t i = 0; i < t.size(); i++)
-            {
-                c[i].name = nk.add(t[i].name);
-                c[i].func = dummy_r;
-                c[i].help = t[i].has_help ? nk.add(t[i].help) : 0;
-            }
-            tb.push_back(x);
-        }
-        xbuf tp((tables.size() + 1) * sizeof(rshell_command_table), 0);
-        for (size_t t = 0; t < tables.size(); t++)
-            ((rshell_command_table *)tp.p)[t].table = (const rshell_command *)tb[t]->p;
-        size_t room = ansmax > 0 ? (size_t)ansmax : 0;
-        xbuf ans(room, 0xA5);
-        int len = op == "rhelp" ? rshell_help((const rshell_command *)tb[0]->p, ans.p, ansmax)
-                                : rshell_tables_help((const rshell_command_table *)tp.p, ans.p, ansmax);
-        str got = ans.get();
-        o.result = std::to_string(len) + " " + H(got);
-        str full;
-        for (auto &t : tables)
-            full += ref_help(t);
-        if (ansmax <= 0)
-        {
-            if (len != 0)
-                o.fail("no room at all but a length is returned");
-            o.tag("rhelp-no-room");
-        }
-        else
-        {
-            // NUL-terminated inside the buffer, a prefix of the full text, the
-            // returned length is its length, untouched behind the terminator
-            size_t z = got.find('\0');
-            if (z == str::npos)
-                o.fail("answer not terminated inside ansmax bytes");
-            else
-            {
-                str text = got.substr(0, z);
-                if (len != (int)z)
-                    o.fail("returned length " + std::to_string(len) + " != strlen(ans) " + std::to_string(z));
-                if (full.compare(0, text.size(), text) != 0)
-                    o.fail("answer " + H(text) + " is not a prefix of the help text " + H(full));
-                // rshell_help uses all the room; the tables variant keeps one more byte free
-                size_t must = std::min(full.size(), room - (op == "rhelp" ? 1 : std::min<size_t>(2, room)));
-                if (text.size() < must)
-                    o.fail("answer has " + std::to_string(text.size()) + " characters, " + std::to_string(must) + " fit");
-                if (got.substr(z + 1) != str(room - z - 1, (char)0xA5))
-                    o.fail("bytes behind the terminator were written");
-                if (text.size() == full.size()) o.tag(full.size() + 1 == room ? "rhelp-exact-fit" : "rhelp-fits");
-                else o.tag("rhelp-truncated");
-            }
-            if (ansmax == 1) o.tag("rhelp-one-byte");
-        }
-        for (auto x : tb)
-            delete x;
-        return true;
-    }
-    if (op == "rshv")
-    {
-        // rshv <dropargs> <names> <arg>...   (argc = number of args >= 1)
-        int drop = atoi(w[1].c_str());
-        toks names = list_arg(w[2]);
-        toks args;
-        for (size_t i = 3; i < w.size(); i++)
-            args.push_back(U(w[i]));
-        names_keeper nk;
-        xbuf tb((names.size() + 1) * sizeof(rshell_command), 0);
-        rshell_command *c = (rshell_command *)tb.p;
-        for (size_t i = 0; i < names.size(); i++)
-        {
-            c[i].name = nk.add(names[i]);
-            c[i].func = RH[i];
-            c[i].help = 0;
-        }
-        xbuf av(args.size() * sizeof(char *), 0);
-        for (size_t i = 0; i < args.size(); i++)
-            ((char **)av.p)[i] = (char *)nk.add(args[i]);
-        xbuf outb(7, 0);
-        g_called = -1;
-        g_argc = 0;
-        g_args.clear();
-        int ret = -777;
-        // the handler must not read argv[i] for i >= argc - drop: rec() reads argc entries
-        int rc = rshell_execute_v((int)args.size(), (char **)av.p, c, &ret, drop, outb.p, 7);
-        o.result = fmt_dispatch(rc, ret);
-        str want = "rc=" + std::to_string(ENOENT) + " ret=-777 call=none";
-        for (size_t i = 0; i < names.size(); i++)
-            if (names[i] == args[0])
-            {
-                want = "rc=0 ret=" + std::to_string(100 + i) + " call=" + std::to_string(i) + "/" + std::to_string((int)args.size() - drop);
-                for (size_t a = drop; a < args.size(); a++)
-                    want += ":" + H(args[a]);
-                break;
-            }
-        if (o.result != want)
-            o.fail("dispatch " + o.result + " != expected " + want);
-        o.tag(g_called >= 0 ? "rshv-hit" : "rshv-miss");
-        if (g_called >= 0 && drop) o.tag("rshv-dropargs");
-        return true;
-    }
-    return false;
-}
-
-static void run_op(const std::vector<std::string> &w, const std::string &, out &o)
+void run_op(const std::vector<std::string> &w, const std::string &, out &o)
 {
     if (run_op3(w, o))
         return;
@@ -1282,7 +382,7 @@ static void run_op(const std::vector<std::string> &w, const std::string &, out &
     {
         str text = U(w[1]), p = upto_nul(text);
         xbuf b(cz(text));
-        unsigned len = 12345;
+        plen_t len = 12345;
         const char *r = path_next(b.p, &len);
         o.result = r ? std::to_string(r - b.p) + " " + std::to_string(len) : "null";
         size_t wl = 0, wp = first_real(p, 0, &wl);
@@ -1292,7 +392,7 @@ static void run_op(const std::vector<std::string> &w, const std::string &, out &
         // walking with path_next enumerates the real components
         toks walk;
         const char *q = b.p;
-        unsigned l2;
+        plen_t l2;
         for (size_t guard = 0; guard < p.size() + 2 && (q = path_next(q, &l2)); guard++)
         {
             walk.push_back(str(q, l2));
@@ -1463,848 +563,6 @@ static void run_op(const std::vector<std::string> &w, const std::string &, out &
     o.result = "bad-op";
 }
 
-
-// ---------------------------------------------------------------- round 3 ops
-#include <thread>
-static premain_runner g_premain __attribute__((init_priority(102)));
-
-static std::vector<std::vector<std::string>> split_calls(const std::vector<std::string> &w, size_t from)
-{
-    std::vector<std::vector<std::string>> r(1);
-    for (size_t i = from; i < w.size(); i++)
-        if (w[i] == "/")
-            r.emplace_back();
-        else
-            r.back().push_back(w[i]);
-    return r;
-}
-
-static bool run_op3(const std::vector<std::string> &w, out &o)
-{
-    const std::string &op = w[0];
-    if (op == "re")
-    {
-        // re <call> / <call> / ...   one case = ONE set of long-lived argument buffers at fixed
-        // addresses; every call rewrites their contents.  A call that starts with @t runs on a
-        // second thread.  Every call is judged on its own by the oracle of its routine; the model
-        // treats the calls as independent.
-        static arena A;
-        A.rewind();
-        str res;
-        bool first = true;
-        for (auto &c : split_calls(w, 1))
-        {
-            bool thr = !c.empty() && c[0] == "@t";
-            std::vector<std::string> cw(c.begin() + (thr ? 1 : 0), c.end());
-            out sub;
-            if (cw.empty() || cw[0] == "re" || cw[0] == "long" || cw[0] == "premain")
-                sub.result = "bad-op";
-            else
-            {
-                A.rewind();
-                g_arena = &A;
-                if (thr)
-                {
-                    std::thread t([&]() { run_op(cw, "", sub); });
-                    t.join();
-                }
-                else
-                    run_op(cw, "", sub);
-                g_arena = 0;
-            }
-            res += (first ? "" : " / ") + sub.result;
-            first = false;
-            if (sub.oracle != "ok")
-                o.fail("call `" + cw[0] + "` of the case: " + sub.oracle.substr(5));
-            add_tags(o, sub);
-            if (thr) o.tag("re-second-thread");
-        }
-        o.result = res;
-        o.tag("re-fixed-addresses");
-        return true;
-    }
-    if (op == "long")
-    {
-        // long <count> <unit> <tail> <routine> <args, one of them "@">: "@" = unit x count + tail.
-        // The result is the digest (length, FNV-1a) of the routine's result line.
-        size_t count = strtoul(w[1].c_str(), 0, 10);
-        str unit = U(w[2]), tail = U(w[3]), big;
-        big.reserve(unit.size() * count + tail.size());
-        for (size_t i = 0; i < count; i++)
-            big += unit;
-        big += tail;
-        std::vector<std::string> cw(w.begin() + 4, w.end());
-        for (auto &x : cw)
-            if (x == "@")
-                x = H(big);
-        out sub;
-        if (cw.empty() || cw[0] == "re" || cw[0] == "long" || cw[0] == "premain")
-            sub.result = "bad-op";
-        else
-            run_op(cw, "", sub);
-        o.result = digest(sub.result);
-        o.oracle = sub.oracle;
-        o.tags = sub.tags;
-        o.tag(big.size() >= 300 * 1024 ? "long-300KiB" : big.size() >= 65536 ? "long-64KiB" : "long");
-        return true;
-    }
-    if (op == "premain")
-    {
-        // premain <k> <op>: the result the k-th op gave when it ran BEFORE main()
-        size_t k = strtoul(w[1].c_str(), 0, 10);
-        str line;
-        for (size_t i = 2; i < w.size(); i++)
-            line += (i > 2 ? " " : "") + w[i];
-        if (k >= NPREMAIN || line != PREMAIN[k])
-        {
-            o.result = "bad-op";
-            return true;
-        }
-        const out &pre = g_premain.res[k];
-        o.result = pre.result;
-        o.oracle = pre.oracle;
-        o.tags = pre.tags;
-        if (!g_premain.ran_before_main)
-            o.fail("the pre-main runner did not run before main");
-        out now;
-        run_op(words(line), line, now);
-        if (now.result != pre.result)
-            o.fail("before main(): " + pre.result + ", inside main(): " + now.result);
-        o.tag("premain");
-        return true;
-    }
-    if (op == "consts")
-    {
-        // constants and widths the model embeds, read out of the compiled code
-        auto argc_of = [&](bool r) {
-            names_keeper nk;
-            g_called = -1;
-            g_argc = 0;
-            g_args.clear();
-            int ret = 0;
-            xbuf line(cz("a b c d e f g h i j k l m n"));
-            if (r)
-            {
-                rshell_command t[2] = {{nk.add("a"), RH[0], 0}, {0, 0, 0}};
-                xbuf ob(4, 0);
-                rshell_execute(line.p, t, &ret, 0, ob.p, 4);
-            }
-            else
-            {
-                mshell_command t[2] = {{nk.add("a"), MH[0], 0}, {0, 0, 0}};
-                mshell_execute(line.p, t, &ret);
-            }
-            return g_argc;
-        };
-        unsigned plen = 0;
-        o.result = "argcmax_m=" + std::to_string(argc_of(false)) + " argcmax_r=" + std::to_string(argc_of(true)) + " enoent=" + std::to_string(ENOENT) +
-                   " ok=" + std::to_string(SSHELL_OK) + " plen=" + std::to_string(sizeof(plen) * 8) + " size_t=" + std::to_string(sizeof(size_t) * 8) +
-                   " bufsize=" + std::to_string(sizeof(decltype(igris::buffer().size())) * 8) + " int=" + std::to_string(sizeof(int) * 8) +
-                   " char_signed=" + std::to_string((int)((char)0x80 < 0)) + " isprint=";
-        // the isprint table dstring relies on, as a 256-bit set
-        str bits;
-        for (int c = 0; c < 256; c += 8)
-        {
-            int b = 0;
-            for (int k = 0; k < 8; k++)
-                if (isprint((int)(char)(c + k)) )
-                    b |= 1 << k;
-            bits.push_back((char)b);
-        }
-        o.result += H(bits);
-        static_assert(std::is_same<decltype(path_next((const char *)0, &plen)), const char *>::value, "path_next(const char*, unsigned*)");
-        o.tag("consts");
-        return true;
-    }
-    if (op == "rsubip")
-    {
-        // rsubip <block> <inlen> <sub> <rep>: replace_substrings IN PLACE, buffer == input ==
-        // a block of <block> bytes (maxsize = block) whose first <inlen> bytes are the input.
-        // Only for replen == sublen (or no occurrence): then every memcpy has dst == src.
-        str blk = U(w[1]);
-        size_t inlen = strtoul(w[2].c_str(), 0, 10);
-        str a = U(w[3]), b = U(w[4]);
-        xbuf m(blk), sub(a), rep(b);
-        str in = blk.substr(0, inlen);
-        replace_substrings(m.p, m.n, m.p, inlen, sub.p, sub.n, rep.p, rep.n);
-        str got = m.get();
-        o.result = H(got);
-        str full = ref_replace(in, a, b);
-        str want = full.substr(0, std::min(full.size(), blk.size() - 1)) + str(1, '\0');
-        if (want.size() < blk.size())
-            want += blk.substr(want.size());
-        if (got != want)
-            o.fail("in-place replace_substrings " + H(got) + " != substitution + NUL, rest of the block untouched " + H(want));
-        o.tag(full == in ? "rsubip-no-hit" : "rsubip-hit");
-        if (full.size() + 1 > blk.size()) o.tag("rsubip-truncated");
-        return true;
-    }
-    return false;
-}
-
-// ---------------------------------------------------------------- gen
-static void all_strings(const str &alpha, int maxlen, const std::function<void(const str &)> &f, int minlen = 0)
-{
-    for (int len = minlen; len <= maxlen; len++)
-    {
-        std::vector<int> idx(len, 0);
-        while (true)
-        {
-            str s(len, 0);
-            for (int i = 0; i < len; i++)
-                s[i] = alpha[idx[i]];
-            f(s);
-            int k = len - 1;
-            while (k >= 0 && ++idx[k] == (int)alpha.size())
-                idx[k--] = 0;
-            if (k < 0)
-                break;
-        }
-    }
-}
-static str rnd_str(rng &r, const str &alpha, int len)
-{
-    str s(len, 0);
-    for (auto &c : s)
-        c = alpha[r.below(alpha.size())];
-    return s;
-}
-static str names_arg(const toks &v)
-{
-    if (v.empty())
-        return "-";
-    str r;
-    for (size_t i = 0; i < v.size(); i++)
-        r += (i ? "," : "") + H(v[i]);
-    return r;
-}
-// every generated line is printed; lines outside recorded findings are also kept (a bounded
-// reservoir per routine) as the material of the fixed-address cases of round 3 (gen3)
-#include <cstdarg>
-#include <map>
-static std::map<std::string, std::vector<std::string>> g_pool;
-static std::map<std::string, unsigned long> g_seen;
-static hv::rng g_pool_rng(12345);
-static bool g_pool_on = true;
-static void emitf(const char *fmt, ...) __attribute__((format(printf, 1, 2)));
-static void emitf(const char *fmt, ...)
-{
-    va_list ap, ap2;
-    va_start(ap, fmt);
-    va_copy(ap2, ap);
-    int n = vsnprintf(0, 0, fmt, ap);
-    va_end(ap);
-    std::string buf((size_t)n + 1, 0);
-    vsnprintf(&buf[0], buf.size(), fmt, ap2);
-    va_end(ap2);
-    buf.resize((size_t)n);
-    fputs(buf.c_str(), stdout);
-    if (!g_pool_on)
-        return;
-    size_t i = 0;
-    while (i < buf.size())
-    {
-        size_t j = buf.find('\n', i);
-        if (j == std::string::npos)
-            j = buf.size();
-        std::string line = buf.substr(i, j - i);
-        i = j + 1;
-        if (line.empty() || line[0] == '@' || line.size() > 160)
-            continue;
-        std::string op = line.substr(0, line.find(' '));
-        auto &v = g_pool[op];
-        unsigned long k = ++g_seen[op];
-        if (v.size() < 600)
-            v.push_back(line);
-        else
-        {
-            unsigned long x = g_pool_rng.below(k);
-            if (x < v.size())
-                v[x] = line;
-        }
-    }
-}
-#define P(...) emitf(__VA_ARGS__)
-static const char *F_NUL = "@F:C19-split-delims-nul ";
-
-static const char *F_ARGVN = "@F:C19-argvn-nul-not-terminator ";
-static const char *F_PREMC = "@F:C19-path-remove-prefix-leading-dot ";
-// probe where "NUL is one more separator" (the code) and "the line ends at its
-// terminator" (argvc.h: safe variant of argvc_internal_split) give different arguments
-static void emit_argvn_probe(const str &s, int m)
-{
-    if (s.find('\0') == str::npos || m <= 0)
-        return;
-    if (take(ref_runs(s, WS_ARGV + str(1, '\0')), m) != take(ref_runs(upto_nul(s), WS_ARGV), m))
-        P("%sargvnz %s %d\n", F_ARGVN, H(s).c_str(), m);
-}
-// probe where a leading single-dot piece makes the node reading (the code) and the
-// component reading differ
-static void emit_premc_probe(const str &tp, const str &tq)
-{
-    str p = upto_nul(tp), q = upto_nul(tq);
-    auto dot = [](const str &x) { return x == "." || x.compare(0, 2, "./") == 0; };
-    if (!dot(p) && !dot(q))
-        return;
-    auto np = nodes(p), nq = nodes(q);
-    size_t i = 0;
-    while (i < np.size() && i < nq.size() && np[i].s == nq[i].s)
-        i++;
-    size_t code = i < np.size() ? np[i].pos : p.size();
-    std::vector<comp> cp, cq;
-    for (auto &c : raw_comps(p)) if (real(c)) cp.push_back(c);
-    for (auto &c : raw_comps(q)) if (real(c)) cq.push_back(c);
-    size_t k = 0;
-    while (k < cp.size() && k < cq.size() && cp[k].s == cq[k].s)
-        k++;
-    size_t want = k < cp.size() ? cp[k].pos : p.size();
-    if (code != want)
-        P("%spremc %s %s\n", F_PREMC, H(tp).c_str(), H(tq).c_str());
-}
-
-static void emit_unary(const str &s)
-{
-    str h = H(s);
-    bool nul = s.find('\0') != str::npos;
-    P("splitc %s 20\nsplitc %s 2f\n", h.c_str(), h.c_str());
-    P("%ssplitd %s 202f\n", nul ? F_NUL : "", h.c_str());
-    P("trim %s\ncmdargs %s\ncreader %s\n", h.c_str(), h.c_str(), h.c_str());
-    P("argvn %s 2\nargv %s 2\n", h.c_str(), h.c_str());
-    emit_argvn_probe(s, 2);
-    P("pnext %s\npiter %s\n", h.c_str(), h.c_str());
-}
-
-
-// ---------------------------------------------------------------- gen (extension)
-static const char *F_BSL = "@F:C19-path-last-node-backslash ";
-static const char *F_EQZ = "@F:C19-buffer-eq-cstr-prefix ";
-static str entry_arg(const str &name, int help_kind, const str &help) // help_kind 0: NULL
-{
-    return H(name) + (help_kind ? ":" + H(help) : "");
-}
-static void emit_path2(const str &s)
-{
-    str h = H(s), p = upto_nul(s);
-    P("pabs %s\npsimple %s\npdd %s\nplast %s\npnext0 %s\n", h.c_str(), h.c_str(), h.c_str(), h.c_str(), h.c_str());
-    // the unix-separator reading of path_last_node: recorded finding
-    size_t a = p.rfind('\\'), b = p.rfind('/');
-    if ((a == str::npos ? 0 : a + 1) != (b == str::npos ? 0 : b + 1))
-        P("%splastu %s\n", F_BSL, h.c_str());
-}
-// strncmp(a, z, |a|) == 0 computed by hand: where it differs from equality the
-// comparison with a C string is a recorded finding (prefix / NUL in the buffer)
-static void emit_beqz(const str &a, const str &t)
-{
-    str z = upto_nul(t);
-    bool prefix_eq = true;
-    for (size_t i = 0; i < a.size(); i++)
-    {
-        char x = a[i], y = i < z.size() ? z[i] : 0;
-        if (x != y) { prefix_eq = false; break; }
-        if (x == 0) break;
-    }
-    P("%sbeqz %s %s\n", prefix_eq != (a == z) ? F_EQZ : "", H(a).c_str(), H(t).c_str());
-}
-static void gen2(rng &r, bool th)
-{
-    // paths: every string <= 5 over {a / . \ NUL 0x80}, length 6 (7) over {a / . \}
-    all_strings(str("a/.\\\0\x80", 6), 5, [&](const str &s) { emit_path2(s); });
-    all_strings(str("a/.\\", 4), th ? 7 : 6, [&](const str &s) { emit_path2(s); }, 6);
-    all_strings(str(" a\0\t", 4), th ? 6 : 5, [&](const str &s) { P("lenfirst %s\n", H(s).c_str()); });
-    // creader_skip: every buffer <= 5 (6) over {space tab a NUL 0x80} x symbol sets
-    {
-        const std::vector<str> SY = {"", " ", "\t\n\r ", "a ", "\x80", str(" \0a", 3), "\x80\t"};
-        all_strings(str(" \ta\0\x80", 5), th ? 6 : 5, [&](const str &s) {
-            for (auto &y : SY)
-                P("cskip %s %s\n", H(s).c_str(), H(y).c_str());
-            P("cskipws %s\n", H(s).c_str());
-        });
-        all_strings(str(" \t\n\ra", 5), 4, [&](const str &s) { P("cskipws %s\n", H(s).c_str()); });
-    }
-    // buffer ==: all pairs of strings <= 3 over {a b NUL 0x80}; with C strings <= 4 over {a b 0x80}
-    {
-        std::vector<str> as, zs;
-        all_strings(str("ab\0\x80", 4), 3, [&](const str &s) { as.push_back(s); });
-        all_strings(str("ab\x80", 3), 4, [&](const str &s) { zs.push_back(s); });
-        for (auto &a : as)
-            for (auto &b : as)
-                P("beq %s %s\n", H(a).c_str(), H(b).c_str());
-        for (auto &a : as)
-            for (auto &z : zs)
-                emit_beqz(a, z);
-        const char *arrs[] = {"00", "6100", "616200", "61006200", "6162630000", "610000000000", "616263646500"};
-        for (auto a : arrs)
-            P("bufctor c %s\nbufctor m %s\n", a, a);
-        P("bufctor m 61\nbufctor m 616263\nbufctor m 616263646566\n");
-    }
-    // dstring: every single byte, every string <= 3 over the critical alphabet
-    for (int c = 0; c < 256; c++)
-        P("dstr %02x\ndstr 61%02x\n", c, c);
-    all_strings(str("a\\\n\t\0\x80\xffnx~\x7f\x1f ", 13), 3, [&](const str &s) { P("dstr %s\n", H(s).c_str()); });
-    all_strings(str("\\nx0a", 5), th ? 6 : 5, [&](const str &s) { P("dstr %s\n", H(s).c_str()); }, 4);
-    // help: tables of <= 2 entries from a pool, every ansmax from -1 to the full length + 3
-    {
-        const std::vector<str> E = {entry_arg("a", 0, ""), entry_arg("ab", 1, "h"), entry_arg("", 1, ""), entry_arg("b", 1, ""), entry_arg("\x80", 1, "xy"),
-                                    entry_arg("help", 1, "this text")};
-        std::vector<str> T = {"_"};
-        std::vector<size_t> L = {0};
-        auto elen = [&](size_t i) { const size_t n[] = {3, 8, 5, 6, 8, 18}; return n[i]; };
-        for (size_t i = 0; i < E.size(); i++)
-        {
-            T.push_back(E[i]);
-            L.push_back(elen(i));
-        }
-        for (size_t i = 0; i < E.size(); i++)
-            for (size_t j = 0; j < E.size(); j++)
-            {
-                T.push_back(E[i] + "," + E[j]);
-                L.push_back(elen(i) + elen(j));
-            }
-        for (size_t t = 0; t < T.size(); t++)
-        {
-            P("mhelp %s\n", T[t].c_str());
-            for (int m = -1; m <= (int)L[t] + 3; m++)
-                P("rhelp %d %s\n", m, T[t].c_str());
-        }
-        P("mhelpt\nrhelpt 0\nrhelpt 1\nrhelpt 5\n");
-        for (size_t t = 0; t < T.size(); t += (th ? 1 : 3))
-            for (size_t u = 0; u < T.size(); u += (th ? 2 : 5))
-            {
-                P("mhelpt %s %s\n", T[t].c_str(), T[u].c_str());
-                for (int m = -1; m <= (int)(L[t] + L[u]) + 3; m++)
-                    P("rhelpt %d %s %s\n", m, T[t].c_str(), T[u].c_str());
-            }
-        for (int k = 0; k < (th ? 400 : 60); k++)
-        {
-            size_t a = r.below(T.size()), b = r.below(T.size()), c = r.below(T.size());
-            int m = (int)r.range(-1, (int)(L[a] + L[b] + L[c]) + 3);
-            P("rhelpt %d %s %s %s\nmhelpt %s %s %s\n", m, T[a].c_str(), T[b].c_str(), T[c].c_str(), T[a].c_str(), T[b].c_str(), T[c].c_str());
-        }
-    }
-    // rshell_execute_v with the caller's argv (strings may contain white space), argc 1..3
-    {
-        const std::vector<str> Wd = {"a", "b", "ab", "", "a b", "\x80"};
-        const std::vector<toks> tables = {{}, {"a"}, {"b", "a"}, {"ab", "a", "a"}, {"", "a b", "\x80"}};
-        for (int n = 1; n <= 3; n++)
-        {
-            std::vector<int> idx(n, 0);
-            while (true)
-            {
-                str line;
-                for (int i = 0; i < n; i++)
-                    line += " " + H(Wd[idx[i]]);
-                for (auto &t : tables)
-                    if (n < 3 || th || r.chance(25))
-                        P("rshv %d %s%s\n", (int)r.below(n + 2), names_arg(t).c_str(), line.c_str());
-                int k = n - 1;
-                while (k >= 0 && ++idx[k] == (int)Wd.size())
-                    idx[k--] = 0;
-                if (k < 0)
-                    break;
-            }
-        }
-    }
-    // command tables and lines with bytes >= 0x80 (strcmp compares unsigned char, the splitter char)
-    {
-        const std::vector<toks> tables = {{"\x80"}, {"a\xff", "\xff"}, {"a", "\x80" "a"}, {"\xff\x80", "\xff"}};
-        all_strings(str(" a\x80\xff", 4), th ? 4 : 3, [&](const str &s) {
-            for (auto &t : tables)
-            {
-                P("msh %s %s\nrsh %s %d %s\n", H(s).c_str(), names_arg(t).c_str(), H(s).c_str(), (int)r.below(2), names_arg(t).c_str());
-            }
-            P("msht %s %s %s\n", H(s).c_str(), names_arg(tables[1]).c_str(), names_arg(tables[0]).c_str());
-            P("rsht %s 0:%s 1:%s\n", H(s).c_str(), names_arg(tables[2]).c_str(), names_arg(tables[3]).c_str());
-        });
-    }
-    // random longer inputs
-    int N = th ? 3000 : 400;
-    const str WIDE = str(" a/.\\\"\0\n\r\t'bz\x80\xff\x7f\x01n", 18);
-    for (int i = 0; i < N; i++)
-    {
-        int len = (int)r.range(6, r.chance(10) ? 200 : 40);
-        str s = rnd_str(r, r.chance(50) ? str("ab/.\\") : WIDE, len);
-        if (r.chance(30)) s.back() = r.chance(50) ? '\\' : '/';
-        if (r.chance(15)) s[0] = r.chance(50) ? '\\' : '/';
-        if (r.chance(30)) s = (r.chance(50) ? ".." : ".") + s;
-        emit_path2(s);
-        str t = rnd_str(r, WIDE, len);
-        P("dstr %s\nlenfirst %s\n", H(t).c_str(), H(t).c_str());
-        str ws = rnd_str(r, " \t\n\r", (int)r.range(0, 6)) + rnd_str(r, WIDE, (int)r.range(0, 10));
-        P("cskipws %s\ncskip %s %s\n", H(ws).c_str(), H(ws).c_str(), H(rnd_str(r, " \t\n\ra\x80", (int)r.range(0, 4))).c_str());
-        // buffers: equal, differing in one byte, differing behind a NUL, prefix
-        str a = rnd_str(r, str("ab\0\x80", 4), (int)r.range(0, 24)), b = a;
-        if (!b.empty() && r.chance(60)) b[r.below(b.size())] ^= (char)(1 << r.below(8));
-        if (r.chance(15)) b += "a";
-        P("beq %s %s\n", H(a).c_str(), H(b).c_str());
-        str z = rnd_str(r, str("ab\x80", 3), (int)r.range(0, 12)), za = z.substr(0, r.below(z.size() + 1));
-        emit_beqz(r.chance(50) ? z : za, z);
-        emit_beqz(a, upto_nul(b));
-    }
-}
-
-
-// ---------------------------------------------------------------- gen (round 3)
-static void gen3(rng &r, bool th)
-{
-    g_pool_on = false;
-    P("consts\n");
-    for (size_t k = 0; k < NPREMAIN; k++)
-        P("premain %zu %s\n", k, PREMAIN[k]);
-    // (a) fixed-address cases.  split(buffer, delims): every ordered pair of delimiter strings of
-    //     the SAME length (same extent, same address, other contents) on lines that contain both
-    {
-        const std::vector<str> D1 = {",", ";", " ", "a"}, D2 = {",;", "; ", " ,", "a,"};
-        const std::vector<str> L = {"a,b;c,d", ";a, b;", "a b,c;d a", ",,;;", "abc"};
-        for (auto &l : L)
-            for (auto *D : {&D1, &D2})
-                for (auto &d1 : *D)
-                    for (auto &d2 : *D)
-                    {
-                        if (d1 == d2)
-                            continue;
-                        P("re splitd %s %s / splitd %s %s\n", H(l).c_str(), H(d1).c_str(), H(l).c_str(), H(d2).c_str());
-                        if (th || r.chance(40))
-                            P("re splitd %s %s / @t splitd %s %s / splitd %s %s / splitd %s %s\n", H(l).c_str(), H(d1).c_str(), H(L[r.below(L.size())]).c_str(),
-                              H(d2).c_str(), H(l).c_str(), H(d2).c_str(), H(L[r.below(L.size())]).c_str(), H(d1).c_str());
-                    }
-        // the same for every routine with pointer arguments: cases of 2..4 calls drawn from the
-        // lines the generators above produced for that routine (same roles -> same addresses),
-        // a call on a second thread in between, and cases that mix routines
-        std::vector<std::string> ops;
-        for (auto &kv : g_pool)
-            if (kv.first != "reset" && kv.first != "bufctor")
-                ops.push_back(kv.first);
-        int per = th ? 1200 : 160;
-        for (auto &op : ops)
-        {
-            auto &v = g_pool[op];
-            for (int i = 0; i < per; i++)
-            {
-                int n = (int)r.range(2, 4);
-                int t = r.chance(25) ? (int)r.range(1, n - 1) : -1;
-                str line = "re";
-                for (int k = 0; k < n; k++)
-                    line += str(k ? " / " : " ") + (k == t ? "@t " : "") + v[r.below(v.size())];
-                P("%s\n", line.c_str());
-            }
-        }
-        for (int i = 0; i < (th ? 6000 : 800); i++)
-        {
-            int n = (int)r.range(2, 5);
-            str line = "re";
-            for (int k = 0; k < n; k++)
-            {
-                auto &v = g_pool[ops[r.below(ops.size())]];
-                line += str(k ? " / " : " ") + (r.chance(10) ? "@t " : "") + v[r.below(v.size())];
-            }
-            P("%s\n", line.c_str());
-        }
-    }
-    // (b) boundary parameters, permanently in the stream: argcmax 0, 1, words-1, words, words+1
-    //     for lines of 0..12 words; maxsize 0 .. needed+2 of replace_substrings
-    for (int words = 0; words <= 12; words++)
-    {
-        str line = r.chance(50) ? " " : "";
-        for (int k = 0; k < words; k++)
-            line += str(1, (char)('a' + k)) + (k + 1 < words || r.chance(50) ? (r.chance(50) ? " " : "\t ") : "");
-        std::set<int> ms = {0, 1, words - 1, words, words + 1};
-        for (int m : ms)
-            if (m >= 0)
-                P("argv %s %d\nargvn %s %d\n", H(line).c_str(), m, H(line).c_str(), m);
-    }
-    {
-        std::vector<str> pats;
-        all_strings("a.", 2, [&](const str &s) { pats.push_back(s); });
-        all_strings("a.", th ? 5 : 4, [&](const str &s) {
-            for (auto &p : pats)
-                for (auto &q : {str(""), str("."), str("aa."), str("a")})
-                {
-                    size_t full = ref_replace(s, p, q).size();
-                    for (size_t m = 0; m <= full + 2; m++)
-                        if (th || m <= 1 || m + 2 >= full)
-                            P("rsub %zu %s %s %s\n", m, H(s).c_str(), H(p).c_str(), H(q).c_str());
-                }
-        });
-    }
-    // (c) replace_substrings in place (buffer == input), replacement as long as the pattern
-    {
-        std::vector<str> pats;
-        all_strings("a.", 2, [&](const str &s) { pats.push_back(s); }, 1);
-        all_strings("a.", th ? 5 : 4, [&](const str &s) {
-            for (auto &p : pats)
-                for (auto &q : pats)
-                    if (p.size() == q.size())
-                    {
-                        P("rsubip %s %zu %s %s\n", H(s + "Z").c_str(), s.size(), H(p).c_str(), H(q).c_str());    // room for the terminator
-                        P("rsubip %s %zu %s %s\n", H(s + "ZYX").c_str(), s.size(), H(p).c_str(), H(q).c_str()); // generous
-                        if (!s.empty())
-                            P("rsubip %s %zu %s %s\n", H(s).c_str(), s.size(), H(p).c_str(), H(q).c_str()); // maxsize == inlen: last byte cut
-                    }
-        });
-    }
-    // (d) long inputs: boundary lengths and >= 300 KiB through every linear routine
-    {
-        // sel: which routines (quick tier: the 300 KiB inputs go through a selection, the model
-        // driver needs about a second for each; thorough: all of them)
-        auto each = [&](size_t count, const str &unit, const str &tail, const char *sel = 0) {
-            str a = std::to_string(count) + " " + H(unit) + " " + H(tail);
-            auto on = [&](char c) { return th || !sel || strchr(sel, c); };
-            if (on('c')) P("long %s splitc @ 20\n", a.c_str());
-            if (on('d')) P("long %s splitd @ 202c\n", a.c_str());
-            if (on('q')) P("long %s cmdargs @\n", a.c_str());
-            if (on('t')) P("long %s trim @\n", a.c_str());
-            if (on('m')) P("long %s memmem @ 6162\nlong %s memmem @ %s\n", a.c_str(), a.c_str(), H(tail.empty() ? unit : tail).c_str());
-            // the model's replace loop costs (matches x length): many matches only on the short inputs
-            if (on('r')) P("long %s replace @ %s 6262\n", a.c_str(), unit.size() * count > 8192 ? "6162" : "61");
-            if (on('s')) P("long %s rsub %zu @ 6120 2e\n", a.c_str(), (size_t)r.range(0, (long)(unit.size() * count + 2)));
-            if (on('a')) P("long %s argv @ 10\n", a.c_str());
-            if (on('n')) P("long %s argvn @ 10\n", a.c_str());
-            if (on('l')) P("long %s creader @\n", a.c_str());
-            if (on('h')) P("long %s msh @ 61\n", a.c_str());
-            if (on('p')) P("long %s pnext @\nlong %s piter @\n", a.c_str(), a.c_str());
-        };
-        for (size_t n : {255, 256, 257, 4095, 4096, 4097})
-        {
-            each(n, "a", "");
-            each(n - 1, "a", " ");
-        }
-        if (th)
-            for (size_t n : {65535, 65536, 65537})
-                each(n, "a", "");
-        // 300 KiB: about 1000 tokens / lines / matches of 307 bytes each
-        str w300(299, 'a');
-        each(1001, w300 + " a, b\n", "", "dtma");
-        each(1001, " " + w300 + "/./a\"b\r\n", "x", "-");
-        // 300 KiB without any delimiter, of white space only, of one-character path components
-        each(307200, "a", "", "tm");
-        each(307200, " ", "", "dtah");
-        each(153600, "a/", "", "cp");
-        {
-            // a periodic needle (every position a candidate), 300 matches of a 65-byte pattern
-            str nd = str(127, 'a') + "b", u1k = str(1023, 'a') + "b", n64 = str(64, 'a') + "b";
-            P("long 307200 61 62 memmem @ %s\nlong 307200 61 - memmem @ %s\n", H(nd).c_str(), H(nd).c_str());
-            P("long 300 %s - replace @ %s 2e\n", H(u1k).c_str(), H(n64).c_str());
-            if (th)
-            {
-                P("long 300 %s - rsub 300000 @ %s 2e2e\n", H(u1k).c_str(), H(n64).c_str());
-                P("long 300 %s - rsub 310000 @ 62 2e2e2e\n", H(u1k).c_str());
-            }
-        }
-        // join of 1000 tokens of 300 bytes
-        if (th)
-        {
-            str line;
-            for (int k = 0; k < 1000; k++)
-                line += " @";
-            P("long 300 61 - join 2c%s\nlong 300 61 - joinf 2c20 5b 5d%s\n", line.c_str(), line.c_str());
-        }
-    }
-}
-
-static void gen(rng &r, const std::string &tier)
-{
-    bool th = tier == "thorough";
-    const str A7 = str(" a/.\"\0\n", 7);
-    // (1) all strings over the property's alphabet
-    //     quick: length <= 5 for every unary routine (19 608 strings);
-    //     thorough: length 6 as well, cut in 8 slices by seed % 8 (the 8
-    //     derived seeds of a thorough run cover all of them)
-    all_strings(A7, 5, [&](const str &s) { emit_unary(s); });
-    {
-        // r.s % 8 is a bijection of seed % 8 (odd multiplier) and the derived
-        // seeds of a thorough run are seed*1000 + 0..7: all slices are covered
-        unsigned long n = 0, slice = (unsigned long)(r.s % 8);
-        all_strings(
-            A7, 6,
-            [&](const str &s) {
-                n++;
-                if (th ? (n % 8 == slice) : (n % 64 == slice))
-                    emit_unary(s);
-            },
-            6);
-    }
-    // (2) routine-specific alphabets
-    //     white-space sets of trim / argv: " \n\r\t"
-    all_strings(str(" \n\r\ta\0", 6), th ? 5 : 4, [&](const str &s) {
-        str h = H(s);
-        P("trim %s\nargv %s 3\nargvn %s 3\ncreader %s\n", h.c_str(), h.c_str(), h.c_str(), h.c_str());
-        emit_argvn_probe(s, 3);
-        P("%ssplitd %s 0a0d09\n", s.find('\0') != str::npos ? F_NUL : "", h.c_str());
-    });
-    //     both quote characters
-    all_strings(str(" a\"'", 4), th ? 7 : 6, [&](const str &s) { P("cmdargs %s\n", H(s).c_str()); });
-    //     argcmax 0..3 on short lines
-    all_strings(str(" a\t\0", 4), 5, [&](const str &s) {
-        for (int m = 0; m <= 3; m++)
-        {
-            P("argvn %s %d\nargv %s %d\n", H(s).c_str(), m, H(s).c_str(), m);
-            emit_argvn_probe(s, m);
-        }
-    });
-    //     memmem: every haystack <= 6 x needle <= 3 over {a, /, NUL}
-    {
-        std::vector<str> needles;
-        all_strings(str("a/\0", 3), 3, [&](const str &s) { needles.push_back(s); });
-        all_strings(str("a/\0", 3), th ? 7 : 6, [&](const str &l) {
-            for (auto &s : needles)
-                P("memmem %s %s\n", H(l).c_str(), H(s).c_str());
-        });
-    }
-    //     replace / replace_substrings: src <= 5 over {a, ., NUL}, pattern <= 2
-    {
-        std::vector<str> pats;
-        all_strings(str("a.\0", 3), 2, [&](const str &s) { pats.push_back(s); });
-        const std::vector<str> reps = {"", "a", "..", str("a\0a", 3), "aa."};
-        all_strings(str("a.\0", 3), 5, [&](const str &s) {
-            for (auto &p : pats)
-                for (auto &q : reps)
-                {
-                    P("replace %s %s %s\n", H(s).c_str(), H(p).c_str(), H(q).c_str());
-                    str full = ref_replace(s, p, q);
-                    // output buffers: exact fit, one short, generous, tiny
-                    size_t sizes[4] = {full.size() + 1, full.size(), full.size() + 3, (size_t)r.below(3)};
-                    size_t pick = r.below(3);
-                    for (size_t k = 0; k < 4; k++)
-                        if (th || k == pick || k == 3)
-                            P("rsub %zu %s %s %s\n", sizes[k], H(s).c_str(), H(p).c_str(), H(q).c_str());
-                }
-        });
-    }
-    //     joins: all token lists of <= 3 tokens over tokens {"", a, aa, " ", "a b"}
-    {
-        const std::vector<str> T = {"", "a", "aa", " ", "a b", "/"};
-        for (int n = 0; n <= 3; n++)
-        {
-            std::vector<int> idx(n, 0);
-            while (true)
-            {
-                str line;
-                for (int i = 0; i < n; i++)
-                    line += " " + H(T[idx[i]]);
-                P("join 20%s\njoin 2f%s\njoinf 2c20 5b 5d%s\njoinf - - -%s\n", line.c_str(), line.c_str(), line.c_str(), line.c_str());
-                int k = n - 1;
-                while (k >= 0 && ++idx[k] == (int)T.size())
-                    idx[k--] = 0;
-                if (k < 0)
-                    break;
-            }
-        }
-    }
-    //     paths: pairs of all paths <= 4 over {a, b, /, .} for compare, <= 4 over {a,/,.} for remove_prefix
-    {
-        std::vector<str> ps;
-        all_strings("ab/.", 3, [&](const str &s) { ps.push_back(s); });
-        for (auto &a : ps)
-            for (auto &b : ps)
-                P("pcmp %s %s\n", H(a).c_str(), H(b).c_str());
-        std::vector<str> qs;
-        all_strings("a/.", th ? 5 : 4, [&](const str &s) { qs.push_back(s); });
-        for (auto &a : qs)
-            for (auto &b : qs)
-            {
-                P("prem %s %s\n", H(a).c_str(), H(b).c_str());
-                emit_premc_probe(a, b);
-            }
-        all_strings("ab/.", th ? 8 : 7, [&](const str &s) { P("pnext %s\npiter %s\n", H(s).c_str(), H(s).c_str()); }, 6);
-    }
-    //     dispatchers: every line <= 4 over {space, a, b, tab, NUL} x command tables of 0..3 entries
-    {
-        const std::vector<toks> tables = {{}, {"a"}, {"b", "a"}, {"ab", "a", "a"}, {"aa", "b", "ab"}};
-        all_strings(str(" ab\t\0", 5), th ? 5 : 4, [&](const str &s) {
-            const toks &t = tables[r.below(tables.size())];
-            const toks &t2 = tables[r.below(tables.size())];
-            P("msh %s %s\n", H(s).c_str(), names_arg(t).c_str());
-            P("rsh %s %d %s\n", H(s).c_str(), (int)r.below(2), names_arg(t).c_str());
-            if (th || r.chance(30))
-            {
-                P("msht %s %s %s\n", H(s).c_str(), names_arg(t).c_str(), names_arg(t2).c_str());
-                P("rsht %s %d:%s %d:%s\n", H(s).c_str(), (int)r.below(2), names_arg(t).c_str(), (int)r.below(2), names_arg(t2).c_str());
-            }
-        });
-        // no table at all / three tables
-        P("msht 61\nrsht 61\nmsht - \nmsht 61 - - 61\nrsht 61 0:- 1:- 0:61\n");
-    }
-    // (2b) the routines added by the extension
-    gen2(r, th);
-    // (3) random longer inputs, biased towards structure
-    int N = th ? 4000 : 600;
-    const str WIDE = str(" a/.\"\0\n\r\t'bz\x80\xff,", 15);
-    for (int i = 0; i < N; i++)
-    {
-        int len = (int)r.range(7, r.chance(10) ? 200 : 40);
-        const str &al = r.chance(50) ? A7 : WIDE;
-        str s = rnd_str(r, al, len);
-        // boundary bias: force the last / first character
-        if (r.chance(30)) s.back() = r.chance(50) ? ' ' : '"';
-        if (r.chance(20)) s[0] = ' ';
-        emit_unary(s);
-        str h = H(s);
-        P("argvn %s %d\nargv %s %d\n", h.c_str(), (int)r.range(0, 12), h.c_str(), (int)r.range(0, 12));
-        str d = rnd_str(r, str(" /.,\n\t\"a"), (int)r.range(1, 3));
-        P("%ssplitd %s %s\n", s.find('\0') != str::npos ? F_NUL : "", h.c_str(), H(d).c_str());
-        P("splitc %s %s\n", h.c_str(), H(str(1, al[r.below(al.size())])).c_str());
-        // memmem / replace with a needle cut out of the haystack (mostly hits)
-        size_t a = r.below(len), l = (size_t)r.range(0, std::min(4, len - (int)a));
-        str needle = r.chance(75) ? s.substr(a, l) : rnd_str(r, al, (int)r.range(0, 3));
-        P("memmem %s %s\n", h.c_str(), H(needle).c_str());
-        str rep = rnd_str(r, al, (int)r.range(0, 4));
-        P("replace %s %s %s\n", h.c_str(), H(needle).c_str(), H(rep).c_str());
-        str full = ref_replace(s, needle, rep);
-        size_t ms = r.chance(50) ? full.size() + 1 : (size_t)r.range(0, (int)full.size() + 4);
-        P("rsub %zu %s %s %s\n", ms, h.c_str(), H(needle).c_str(), H(rep).c_str());
-        // joins of random tokens
-        {
-            int n = (int)r.range(0, 6);
-            str line;
-            for (int k = 0; k < n; k++)
-                line += " " + H(rnd_str(r, r.chance(70) ? str("abz.") : al, (int)r.range(r.chance(80) ? 1 : 0, 5)));
-            P("join 20%s\njoinf %s %s %s%s\n", line.c_str(), H(rnd_str(r, ", ;", (int)r.range(0, 2))).c_str(), H(rnd_str(r, "[(<", (int)r.range(0, 2))).c_str(),
-              H(rnd_str(r, "])>", (int)r.range(0, 2))).c_str(), line.c_str());
-        }
-        // structured paths: components from a small pool joined by runs of '/'
-        {
-            auto mk = [&]() {
-                static const std::vector<str> C = {"a", "b", ".", "..", "ab", "", "a.", ".a", "\x80"};
-                str p = r.chance(50) ? "/" : "";
-                int n = (int)r.range(0, 5);
-                for (int k = 0; k < n; k++)
-                    p += C[r.below(C.size())] + (k + 1 < n || r.chance(30) ? str(1 + r.below(2), '/') : "");
-                return p;
-            };
-            str p1 = mk(), p2 = r.chance(60) ? p1.substr(0, r.below(p1.size() + 1)) + (r.chance(30) ? mk() : "") : mk();
-            P("pnext %s\npiter %s\npcmp %s %s\nprem %s %s\nprem %s %s\n", H(p1).c_str(), H(p1).c_str(), H(p1).c_str(), H(p2).c_str(), H(p1).c_str(),
-              H(p2).c_str(), H(p2).c_str(), H(p1).c_str());
-            emit_premc_probe(p1, p2);
-            emit_premc_probe(p2, p1);
-        }
-        // command lines: words from a pool, 0..14 of them, random white space
-        {
-            static const std::vector<str> Wd = {"a", "b", "ab", "help", "set", "x"};
-            int n = (int)r.range(0, r.chance(15) ? 14 : 4);
-            str line = rnd_str(r, " \t", (int)r.below(3));
-            for (int k = 0; k < n; k++)
-                line += Wd[r.below(Wd.size())] + rnd_str(r, " \t\r\n", (int)r.range(k + 1 < n ? 1 : 0, 3));
-            std::vector<toks> tb;
-            for (int t = 0; t < 3; t++)
-            {
-                toks names;
-                int m = (int)r.range(0, 3);
-                for (int k = 0; k < m; k++)
-                    names.push_back(Wd[r.below(Wd.size())]);
-                tb.push_back(names);
-            }
-            str lh = H(line);
-            P("msh %s %s\n", lh.c_str(), names_arg(tb[0]).c_str());
-            P("rsh %s %d %s\n", lh.c_str(), (int)r.below(3), names_arg(tb[0]).c_str());
-            P("msht %s %s %s %s\n", lh.c_str(), names_arg(tb[0]).c_str(), names_arg(tb[1]).c_str(), names_arg(tb[2]).c_str());
-            P("rsht %s %d:%s %d:%s %d:%s\n", lh.c_str(), (int)r.below(2), names_arg(tb[0]).c_str(), (int)r.below(2), names_arg(tb[1]).c_str(), (int)r.below(3),
-              names_arg(tb[2]).c_str());
-            P("argv %s %d\nargvn %s %d\n", lh.c_str(), (int)r.range(0, 12), lh.c_str(), (int)r.range(0, 12));
-        }
-    }
-    // (4) round 3: fixed-address cases, boundary parameters, long inputs, pre-main calls, constants
-    gen3(r, th);
-}
 
 int main(int argc, char **argv)
 {
